@@ -148,6 +148,8 @@ impl Drop for Client {
         // bug causes a panic. The permit would never be returned to the
         // semaphore.
         self.limit_connections.add_permits(1);
+        #[cfg(memcrs_verif)]
+        crate::verif::emit("client.exit", 0, self.addr.port() as u64);
     }
 }
 
